@@ -108,13 +108,18 @@ func VerifC05Retry() {
 			start = vClockReading(startIdx)
 		}
 		a := vc05Attempt{req: r}
-		nk := 5
+		nk := 6
 		if len(attempts) == A-1 {
 			nk = 2 // bound: the last allowed attempt ends the request
 		}
 		a.kind = vChoice("outcome", nk)
 		switch a.kind {
 		case 0:
+			finished = true
+		case 5:
+			// a combined verdict: the permanent error is only reachable through a multi-error node
+			a.kind = 1
+			a.err = errors.Join(errors.New("one destination timed out"), consumererror.NewPermanent(errors.New("rejected")))
 			finished = true
 		case 1:
 			a.err = consumererror.NewPermanent(errors.New("rejected"))
